@@ -150,6 +150,12 @@ fn same_font(r0: &Raw, r1: &Raw, acc: &mut Acc) -> Option<Diff> {
         let (Some(m0), Some(m1)) = (m0.clone(), m1.clone()) else {
             return Some(Diff(format!("character {c}: a dimension index leaves its table"), format!("{m0:?}"), format!("{m1:?}")));
         };
+        if m0.italic < 0 {
+            acc.count("negative_italic_original_vs_canonical");
+        }
+        if m0.depth < 0 {
+            acc.count("negative_depth_original_vs_canonical");
+        }
         if (m0.width, m0.height, m0.depth, m0.italic, m0.tag) != (m1.width, m1.height, m1.depth, m1.italic, m1.tag) {
             return Some(Diff(format!("character {c}: width/height/depth/italic/tag differ"), format!("{m0:?}"), format!("{m1:?}")));
         }
@@ -441,7 +447,14 @@ fn check_tfm(idx: u64, b0: &[u8], origin: &dyn Fn() -> Value, acc: &mut Acc) {
 
 /// A generated property list: must be warning-free, its TFM is the original.
 /// `abstract_font`: the lig/kern program the generator meant (raw words before PLtoTF packs them).
+/// (character, [width, height, depth, italic] as fix_words) the generator wrote into the property list.
+type Intended = Vec<(u8, [i32; 4])>;
+
 fn check_pl(idx: u64, pl: &str, origin: &dyn Fn() -> Value, abstract_font: Option<(&Font, &[i32], &[u8])>, acc: &mut Acc) {
+    check_pl_with(idx, pl, origin, abstract_font, None, acc)
+}
+
+fn check_pl_with(idx: u64, pl: &str, origin: &dyn Fn() -> Value, abstract_font: Option<(&Font, &[i32], &[u8])>, intended: Option<&Intended>, acc: &mut Acc) {
     let case = || {
         let mut v = origin();
         v["pl"] = json!(pl);
@@ -461,6 +474,34 @@ fn check_pl(idx: u64, pl: &str, origin: &dyn Fn() -> Value, abstract_font: Optio
         acc.skipped += 1;
         acc.class(&format!("skipped: generated PL draws {}", vcore::clip(&w0[0], 40)));
         return;
+    }
+    if let Some(want) = intended {
+        // the TFM must give every character the four dimensions written in the property list
+        // (no table is large enough here for PLtoTF's lossy compression to start)
+        match tfmraw::parse(&b0) {
+            Err(e) => {
+                acc.eval();
+                acc.fail(idx, case(), "readable TFM", format!("{e:?}"), "tfmraw rejects the output of pl_to_tfm");
+                return;
+            }
+            Ok(r) => {
+                for (c, dims) in want {
+                    let got = r.metrics(*c as usize).map(|m| [m.width, m.height, m.depth, m.italic]);
+                    if got != Some(*dims) {
+                        acc.eval();
+                        acc.fail(idx, case(), format!("character {}: width/height/depth/italic {:?} (fix_words, as written in the property list)", *c as char, dims), format!("{got:?}"), "the TFM does not give a character the dimensions of the property list");
+                        acc.class("FAIL TFM differs from CHARACTER dimensions");
+                        return;
+                    }
+                    for (k, name) in ["negative_width_compared", "negative_height_compared", "negative_depth_compared", "negative_italic_compared"].iter().enumerate() {
+                        if dims[k] < 0 {
+                            acc.count(name);
+                        }
+                    }
+                }
+                acc.count("dimensions_checked_against_generator");
+            }
+        }
     }
     if let Some((af, kerns, letters)) = abstract_font {
         // the TFM must behave like the program written in the property list
@@ -539,15 +580,30 @@ fn pl_abc(extra: &str) -> String {
 }
 
 /// F-dimensions: A has every (wd,ht,dp,ic) of the lattice, B a 16-element sub-lattice, C present or not.
-fn gen_dimensions(i: u64) -> String {
+fn gen_dimensions(i: u64) -> (String, Intended) {
     let d = vcore::digits(i, &[4, 4, 4, 4, 2, 2, 2, 2, 2]);
+    let fix = |t: &str| -> i32 {
+        match t {
+            "0.0" => 0,
+            "1.0" => 1 << 20,
+            "1.5" => 3 << 19,
+            "-0.5" => -(1 << 19),
+            _ => unreachable!("lattice value"),
+        }
+    };
+    let mut intended: Intended = vec![];
     let mut s = String::from("(DESIGNSIZE R 10.0)\n");
-    writeln!(s, "(CHARACTER C A (CHARWD R {}) (CHARHT R {}) (CHARDP R {}) (CHARIC R {}))", DIMS[d[0] as usize], DIMS[d[1] as usize], DIMS[d[2] as usize], DIMS[d[3] as usize]).unwrap();
-    writeln!(s, "(CHARACTER C B (CHARWD R {}) (CHARHT R {}) (CHARDP R {}) (CHARIC R {}))", ["1.0", "1.5"][d[4] as usize], ["0.0", "1.5"][d[5] as usize], ["0.0", "-0.5"][d[6] as usize], ["0.0", "1.0"][d[7] as usize]).unwrap();
+    let a = [DIMS[d[0] as usize], DIMS[d[1] as usize], DIMS[d[2] as usize], DIMS[d[3] as usize]];
+    writeln!(s, "(CHARACTER C A (CHARWD R {}) (CHARHT R {}) (CHARDP R {}) (CHARIC R {}))", a[0], a[1], a[2], a[3]).unwrap();
+    intended.push((b'A', [fix(a[0]), fix(a[1]), fix(a[2]), fix(a[3])]));
+    let b = [["1.0", "1.5"][d[4] as usize], ["0.0", "1.5"][d[5] as usize], ["0.0", "-0.5"][d[6] as usize], ["0.0", "1.0"][d[7] as usize]];
+    writeln!(s, "(CHARACTER C B (CHARWD R {}) (CHARHT R {}) (CHARDP R {}) (CHARIC R {}))", b[0], b[1], b[2], b[3]).unwrap();
+    intended.push((b'B', [fix(b[0]), fix(b[1]), fix(b[2]), fix(b[3])]));
     if d[8] == 1 {
-        s.push_str("(CHARACTER C C (CHARWD R 0.0) (CHARHT R -0.5))\n");
+        s.push_str("(CHARACTER C C (CHARWD R 0.0) (CHARHT R -0.5) (CHARIC R -0.5))\n");
+        intended.push((b'C', [0, -(1 << 19), 0, -(1 << 19)]));
     }
-    s
+    (s, intended)
 }
 const N_DIMENSIONS: u64 = 256 * 16 * 2;
 
@@ -788,6 +844,12 @@ fn write_tfm(p: &Prog, sw: u32) -> Vec<u8> {
     }
     let widx = |v: i32| width.iter().position(|x| *x == v).unwrap() as u8;
     let hidx = |v: i32| height.iter().position(|x| *x == v).unwrap() as u8;
+    // depths and italic corrections of a b c d: positive, zero and negative
+    let dp: [i32; 4] = [0, -(1 << 18), 1 << 18, -(1 << 18)];
+    let ic: [i32; 4] = [-(1 << 17), 0, 1 << 17, -(3 << 16)];
+    let (depth, italic): (Vec<i32>, Vec<i32>) = if has(1) { (vec![0, 1 << 18, -(1 << 18), 1 << 18], vec![0, 1 << 17, -(3 << 16), -(1 << 17), 9 << 16]) } else { (vec![0, -(1 << 18), 1 << 18], vec![0, -(3 << 16), -(1 << 17), 1 << 17]) };
+    let didx = |v: i32| depth.iter().position(|x| *x == v).unwrap() as u8;
+    let iidx = |v: i32| italic.iter().position(|x| *x == v).unwrap() as u8;
     // lig/kern array
     let mut words: Vec<[u8; 4]> = vec![];
     let mut kern: Vec<i32> = KERNS.to_vec();
@@ -850,7 +912,7 @@ fn write_tfm(p: &Prog, sw: u32) -> Vec<u8> {
             tag = 2;
             rem = b'd';
         }
-        char_info.push([widx(wd[k]), hidx(ht[k]) << 4, tag, rem]);
+        char_info.push([widx(wd[k]), (hidx(ht[k]) << 4) | didx(dp[k]), (iidx(ic[k]) << 2) | tag, rem]);
     }
     // header
     let mut header: Vec<[u8; 4]> = vec![[0x12, 0x34, 0x56, 0x78], (10i32 << 20).to_be_bytes()];
@@ -869,16 +931,16 @@ fn write_tfm(p: &Prog, sw: u32) -> Vec<u8> {
         header.push([1, 2, 3, 4]);
     }
     let param: Vec<i32> = vec![1 << 18, 1 << 19];
-    let sizes: [usize; 12] = [0, header.len(), bc as usize, ec as usize, width.len(), height.len(), 1, 1, words.len(), if words.is_empty() { 0 } else { kern.len() }, 0, param.len()];
+    let sizes: [usize; 12] = [0, header.len(), bc as usize, ec as usize, width.len(), height.len(), depth.len(), italic.len(), words.len(), if words.is_empty() { 0 } else { kern.len() }, 0, param.len()];
     let mut out: Vec<u8> = vec![];
-    let lf = 6 + sizes[1] + (ec - bc + 1) as usize + sizes[4] + sizes[5] + 2 + sizes[8] + sizes[9] + sizes[11];
+    let lf = 6 + sizes[1] + (ec - bc + 1) as usize + sizes[4] + sizes[5] + sizes[6] + sizes[7] + sizes[8] + sizes[9] + sizes[11];
     for (i, v) in sizes.iter().enumerate() {
         out.extend(((if i == 0 { lf } else { *v }) as u16).to_be_bytes());
     }
     for w in header.iter().chain(char_info.iter()) {
         out.extend(w);
     }
-    for t in [&width, &height, &vec![0], &vec![0]] {
+    for t in [&width, &height, &depth, &italic] {
         for v in t.iter() {
             out.extend(v.to_be_bytes());
         }
@@ -996,7 +1058,10 @@ fn main() {
             }
             v
         };
-        if case["kind"] == "pl-entrypoint-boundary" {
+        if case["kind"] == "pl-dimensions" {
+            let (pl, intended) = gen_dimensions(case["i"].as_u64().unwrap_or(0));
+            check_pl_with(0, &pl, &origin, None, Some(&intended), &mut acc);
+        } else if case["kind"] == "pl-entrypoint-boundary" {
             let (p, pl) = gen_entry_boundary(case["i"].as_u64().unwrap_or(0));
             let af = Font::new(p.words.clone(), &p.starts, p.rbc, p.lb_start);
             check_pl(0, &pl, &origin, Some((&af, &KERNS[..], &ENTRY_LETTERS[..])), &mut acc);
@@ -1032,8 +1097,9 @@ fn main() {
         });
     }
     // (ii) generated property lists
-    ctx.family("pl-dimensions", "characters A (every width/height/depth/italic of {0,1,1.5,-0.5}^4), B (16-point sub-lattice), C present or absent", N_DIMENSIONS, |i, acc| {
-        check_pl(i, &gen_dimensions(i), &|| json!({"kind": "pl-dimensions", "i": i}), None, acc);
+    ctx.family("pl-dimensions", "characters A (every width/height/depth/italic of {0,1,1.5,-0.5}^4: each field positive, zero and negative), B (16-point sub-lattice), C (zero width, negative height and italic) present or absent; the TFM is also compared per character with the values written in the property list", N_DIMENSIONS, |i, acc| {
+        let (pl, intended) = gen_dimensions(i);
+        check_pl_with(i, &pl, &|| json!({"kind": "pl-dimensions", "i": i}), None, Some(&intended), acc);
     });
     ctx.family("pl-tags", "every NEXTLARGER partial function on {A,B,C,D} (cycles included) x VARCHAR on E with TOP/MID/BOT in {absent,A,D} and REP in {A,B}", N_TAGS, |i, acc| {
         check_pl(i, &gen_tags(i), &|| json!({"kind": "pl-tags", "i": i}), None, acc);
@@ -1142,6 +1208,11 @@ fn main() {
     for n in ["noncanonical_unsorted_tables", "noncanonical_nonexistent_chars_in_range", "noncanonical_orphan_instruction", "noncanonical_restart_words", "noncanonical_permuted_kerns", "noncanonical_long_header", "noncanonical_next_larger"] {
         ctx.require(n, "hand-written TFM files of this non-canonical form that TFtoPL read without message");
     }
+    for n in ["negative_width_compared", "negative_height_compared", "negative_depth_compared", "negative_italic_compared"] {
+        ctx.require(n, "a character with a negative value in this field was compared between the property list as written and the TFM");
+    }
+    ctx.require("negative_italic_original_vs_canonical", "a character with a negative italic correction in an original TFM (not written by pl_to_tfm) compared with the canonical file");
+    ctx.require("negative_depth_original_vs_canonical", "a character with a negative depth in an original TFM compared with the canonical file");
     ctx.require("seven_bit_unsafe_fonts", "fonts that are not seven-bit safe");
     ctx.require("ligtable_checked_against_generator", "generated LIGTABLEs whose TFM was compared with the program as written");
     ctx.finish("one evaluation per original TFM file (corpus file, TFM of a generated property list, or hand-written TFM); non-trivial = TFtoPL converts it without any message, so the whole requirement is checked; the rest is skipped and counted by reason");
